@@ -233,11 +233,11 @@ def detNext (c : Cfg) (now : Int) (call : Call) (isResp : Bool) (d : Det) : Det 
   if !c.detection then d
   else if isResp then { d with lastResp := now, deCalls := 0, refreshCnt := 0 }
   else if call.started < d.lastResp then d
-  else { d with deCalls := d.deCalls + 1 }
+  else { d with deCalls := satInc d.deCalls }
 
 /-- the rule of C07: this completion starts a refresh -/
 def mustRefreshM (c : Cfg) (now : Int) (call : Call) (isResp : Bool) (d : Det) : Prop :=
-  c.detection = true ∧ isResp = false ∧ ¬ call.started < d.lastResp ∧ d.deCalls + 1 ≥ c.uc ∧
+  c.detection = true ∧ isResp = false ∧ ¬ call.started < d.lastResp ∧ satInc d.deCalls ≥ c.uc ∧
   d.lastResp < now - windowNs c d.refreshCnt ∧ d.refreshing = false
 
 theorem detect_det (s : St) (c : Cfg) (call : Call) (err : ErrKind) : ∀ i d, detAt s i = some d →
@@ -289,8 +289,8 @@ theorem detect_det (s : St) (c : Cfg) (call : Call) (err : ErrKind) : ∀ i d, d
         · simp only [hstale, ↓reduceIte]
           -- counted: deCalls + 1, then possibly refresh
           have hinc : ∀ i d, detAt s i = some d →
-              detAt (modRef s call.slot fun r => { r with deCalls := r.deCalls + 1 }) i =
-                some (if call.slot = i then { d with deCalls := d.deCalls + 1 } else d) := by
+              detAt (modRef s call.slot fun r => { r with deCalls := satInc r.deCalls }) i =
+                some (if call.slot = i then { d with deCalls := satInc d.deCalls } else d) := by
             intro i d hd
             rw [detAt_modRef]
             by_cases hsi : call.slot = i
@@ -306,7 +306,7 @@ theorem detect_det (s : St) (c : Cfg) (call : Call) (err : ErrKind) : ∀ i d, d
             unfold detAt at hd; unfold getRef at hg; rw [hg] at hd; exact (Option.some.inj hd).symm
           split
           · rename_i htrig
-            obtain ⟨d', h1, h2, h3, h4, h5, h6⟩ := refresh_det (modRef s call.slot fun r => { r with deCalls := r.deCalls + 1 }) call.slot i _ (hinc i d hd)
+            obtain ⟨d', h1, h2, h3, h4, h5, h6⟩ := refresh_det (modRef s call.slot fun r => { r with deCalls := satInc r.deCalls }) call.slot i _ (hinc i d hd)
             refine ⟨d', h1, ?_, ?_⟩
             · intro hne
               have := h5 hne
